@@ -10,16 +10,18 @@ func main() {
 	vh.Main(vh.Prop{
 		ID:    "C13",
 		Level: "exploration",
-		Rule: "Three strata, case index determines stratum. (gate) every ordered pair (endpoint update parked at hook H2 between shard lookup and shard lock) x (concurrent op of another/same registry: " +
+		Rule: "Five strata, case-name prefix determines stratum. (gate) every ordered pair (endpoint update parked at hook H2 between shard lookup and shard lock) x (concurrent op of another/same registry: " +
 			"delete-service, delete-shard, prune, empty update, update) x initial shard population, enumerated; (stress) PRNG histories of 3-6 registries and readers on a real " +
 			"EndpointIndex with PRNG yields at the gate; both recorded at the call boundary with a logical clock and checked with porcupine against map[service]map[shard]->update id; " +
 			"(eds) PRNG shard contents/subsets/health/locality/network worlds where the real EDS generator output is compared with a reference membership function; " +
-			"(seq) sequences of 8-17 registry reports on one index with a warm endpoint cache, each an edit of the previous report (removals, brand-new endpoints of any health, health flips, label/weight/locality edits in ONE report): after every report generator-with-warm-cache and uncached builder must serve the reference membership of the new latest reports, and the returned push type must not be NoPush when the reference says what some proxy is served changed. " +
-			"Non-trivial: gate case where the update really parked at the gate (the other op then either ran inside the window or blocked until release - both counted); stress history with >=2 registries overlapping in logical time on one service; eds world with >=1 endpoint filtered out and >=1 kept; seq case with >=1 report that changes what is served and >=1 report answered with NoPush. Distinct by hash of the op list / world.",
+			"(seq) sequences of 8-17 registry reports on one index with a warm endpoint cache, each an edit of the previous report (removals, brand-new endpoints of any health, health flips, label/weight/locality edits in ONE report): after every report generator-with-warm-cache and uncached builder must serve the reference membership of the new latest reports, and the returned push type must not be NoPush when the reference says what some proxy is served changed; " +
+			"(mnet) multi-network worlds: PRNG east-west gateways (0-3 per network by address in MeshNetworks, plus registry gateways bound to a cluster in every second world, IPv4/IPv6), proxies on three networks / without network / IPv6-only / dual stack / router with a network view, members over 2-4 localities and 5 networks with PRNG weights and tlsMode present/absent, DestinationRule tls ISTIO_MUTUAL/DISABLE: generator (cold, warm cache) and builder must serve the reference - same-network members directly, remote members represented in their own locality by the reachable gateways of their network with the summed (scaled, split) weight, locality weight = sum of its entries. " +
+			"Non-trivial: gate case where the update really parked at the gate (the other op then either ran inside the window or blocked until release - both counted); stress history with >=2 registries overlapping in logical time on one service; eds world with >=1 endpoint filtered out and >=1 kept; seq case with >=1 report that changes what is served and >=1 report answered with NoPush; mnet world with >=1 member replaced by a gateway and >=1 sent directly. Distinct by hash of the op list / world.",
 		Assumptions: []string{
 			"porcupine v1.3.0 decides linearizability of the recorded history (timeouts => inconclusive)",
 			"reads identify the write they observed because every update carries a unique id in its endpoints",
 			"reference membership function is our reading of the property: latest report per shard, port-name match, subset labels, health rule, discoverability, network rule, locality grouping with summed weights",
+			"multi-network reference (mnet.go R0-R5) follows the explanatory comments of ep_filters.go / network.go (sidecar mode): remote members of a network without gateway are sent directly, weights are scaled by the lcm of the gateway counts, rounding of an inexact split is unspecified (interval)",
 		},
 		Anchors:       []string{"pilot/pkg/model/endpointshards.go", "pilot/pkg/xds/endpoints/", "pilot/pkg/xds/eds.go"},
 		MinNontrivial: func(t string) int { return map[string]int{"quick": 1000, "thorough": 100000}[t] },
@@ -35,4 +37,5 @@ func run(c *vh.Ctx) {
 	runStress(c)
 	runEDS(c)
 	runSeq(c)
+	runMnet(c)
 }
